@@ -151,6 +151,11 @@ func eq(a, b Term) Term {
 	if a.S == b.S {
 		return tTrue
 	}
+	if x, ok := litInt(a); ok {
+		if y, ok := litInt(b); ok && x != y {
+			return tFalse
+		}
+	}
 	return app(SBool, "=", a, b)
 }
 
@@ -529,7 +534,7 @@ func (vc *VC) name(prefix string, t Term) Term {
 	// a macro, not a constant with a defining equation: the solvers see through it, so
 	// quantifier instantiation by matching still finds the terms
 	vc.asserts = append(vc.asserts, "\x00(define-fun "+n+" () "+string(t.Sort)+" "+t.S+")")
-	if strings.HasPrefix(t.S, "(store ") {
+	if strings.HasPrefix(t.S, "(store ") || strings.HasPrefix(t.S, "(mk-") {
 		vc.defs[n] = t.S
 	}
 	return Term{n, t.Sort}
